@@ -27,7 +27,7 @@ impl Mutator for BitFlipMutator {
     }
 
     fn mutate_int(&self, value: i32, source: &mut GenerationSource, rate: f64) -> Option<i32> {
-        if source.gen_f64() > rate {
+        if source.gen_unit_f64() >= rate {
             return None;
         }
         let bit_pos = source.gen_range(0, 32);
@@ -35,7 +35,7 @@ impl Mutator for BitFlipMutator {
     }
 
     fn mutate_long(&self, value: i64, source: &mut GenerationSource, rate: f64) -> Option<i64> {
-        if source.gen_f64() > rate {
+        if source.gen_unit_f64() >= rate {
             return None;
         }
         let bit_pos = source.gen_range(0, 64);
